@@ -146,6 +146,14 @@ def to_scalar(e, dtype):
     return SymInt(e)
 
 
+def _dt(dt):
+    """dtype argument, tolerating the symbolic-aware `int` stand-in."""
+    from . import symx as _sx
+    if dt is _sx.sym_int:
+        dt = int
+    return _np.dtype(dt)
+
+
 def _dim_int(d):
     return isinstance(d, int) or isinstance(d, _np.integer)
 
@@ -627,7 +635,7 @@ class SArr:
         return self.reshape((n,))
 
     def astype(self, dt, copy=True):
-        dt = _np.dtype(dt)
+        dt = _dt(dt)
         src = self.frozen()
         sdt = self.dtype
         return SArr(self.shape, dt, lambda idx: convert_elem(src.get(idx), sdt, dt, cast=True))
@@ -1408,13 +1416,13 @@ class _IntAsFloat(SymReal):
         self.i = i
 
     def astype(self, dt):
-        if _np.dtype(dt).kind in "iu":
+        if _dt(dt).kind in "iu":
             return self.i
         return self
 
 
 def _symreal_astype(self, dt):
-    if _np.dtype(dt).kind in "iu":
+    if _dt(dt).kind in "iu":
         return SymInt(sym_trunc(self.t))
     return self
 
